@@ -1,4 +1,7 @@
 """C20: API-specific diagnostics are about the real API, not a namesake."""
+import json
+import os
+
 import vlib
 from props import scanlib
 
@@ -7,7 +10,16 @@ def run(tier):
     vw = vlib.build_harness()
     res = vlib.Results("C20")
     jobs, ws, man = scanlib.corpora(tier, vw, n_gen_quick=400, n_gen_thorough=4000, include_std=(tier == "thorough"))
-    scanlib.run_sharded(res, vw, "c20", jobs, {"C20"})
+    # namesake transplant: the maintainers' examples of every subject-table checker, imports re-targeted to
+    # generated full shadows of the standard packages (and builtins shadowed by package-level functions)
+    tp_pats = os.path.join(vlib.mktmp("tp-"), "tp.pats")
+    rc, so, se = vlib.sh([vw, "transplant", "-repo", vlib.REPO, "-ws", ws, "-patterns", tp_pats], timeout=600)
+    if rc != 0:
+        vlib.harness_fail("transplant: " + (so + se)[-1500:])
+    tp_info = json.loads(so.strip().splitlines()[-1])
+    jobs.append((ws, [l for l in open(tp_pats).read().split() if l], "TP"))
+    scanlib.run_sharded(res, vw, "c20", jobs, {"C20"},
+                        per_task_extra=lambda idx, label, work: ["-label", "tp"] if label.startswith("TP-") else [])
     d = res.counts.get("diagnostics_of_api_checkers", 0)
     confirmed = res.sets.get("checkers_confirmed_on_real_api", set())
     entries = res.counts.get("subject_table_entries_registered", 0) // max(1, res.counts.get("workers_finished", 1))
@@ -23,8 +35,14 @@ def run(tier):
         "subject_table_entries": entries,
         "generated_namesake_packages": cls.get("namesake", 0),
         "checkers_confirmed_on_real_api": sorted(confirmed),
+        "transplant": dict(tp_info, packages_type_checked=len(res.sets.get("tp_packages_type_checked", ())),
+                           checkers_with_type_checked_examples=len(res.sets.get("tp_checkers_with_type_checked_examples", ())),
+                           diagnostics=res.counts.get("tp_diagnostics_of_api_checkers", 0),
+                           resolved_to_real_api=res.counts.get("tp_resolved_to_real_api", 0),
+                           namesake_reports=res.counts.get("tp_namesake_reports", 0)),
     }
-    floor = d >= 2000 and entries > 0 and len(confirmed) >= 0.8 * entries and cls.get("namesake", 0) >= 100
+    tp_ok = len(res.sets.get("tp_checkers_with_type_checked_examples", ())) >= 0.8 * entries and tp_info.get("shadow_functions", 0) >= 300
+    floor = d >= 2000 and entries > 0 and len(confirmed) >= 0.8 * entries and cls.get("namesake", 0) >= 100 and tp_ok
     vlib.finish(res, "exploration", tier, cov, floor_ok=floor, floor_msg="diags=%d confirmed=%d/%d" % (d, len(confirmed), entries),
                 assumptions=["subject table (checker -> real API) is part of the harness (DESIGN.md appendix B)",
                              "a diagnostic whose flagged node contains no callee spelled like the subject is inconclusive, never a violation"])
